@@ -2,6 +2,7 @@ SPECIFICATION Spec
 CONSTANT NTypes = 2
 CONSTANT Level = 1
 CONSTANT DropRequiredAtCut = FALSE
+CONSTANT ShiftItemsAtCut = FALSE
 INVARIANT Emit
 INVARIANT MeshModelAgrees
 INVARIANT ExampleValid
